@@ -73,20 +73,25 @@ structure St where
 
 def init : St := { d := init0 }
 
-/-- every observer looks at the node (a name without an observer yet gets a fresh one) -/
+/-- every observer looks at the node: per folder name one observer WITH `file_system_requires_scan` and one WITHOUT (a name without
+observers yet gets fresh ones) -/
 def observeAll (st : St) : St :=
   let names := sortNames (st.d.n.folders.map (·.name))
-  let obs := names.map (fun nm =>
-    let o : FolderObs := match st.obs.find? (fun p => p.1.name = nm) with
+  let obs := names.flatMap (fun nm => [true, false].map (fun rq =>
+    let o : FolderObs := match st.obs.find? (fun p => p.1.name = nm && p.1.requiresScan = rq) with
       | some p => p.1
-      | none => { name := nm, requiresScan := true }
+      | none => { name := nm, requiresScan := rq }
     let r := o.observe st.d.n
-    (r.2, r.1))
+    (r.2, r.1)))
   { st with obs := obs ++ st.obs.filter (fun p => !names.contains p.1.name) }
 
 def showObs (st : St) : String :=
-  ",".intercalate ((st.obs.mergeSort (fun a b => decide (a.1.name ≤ b.1.name))).map
-    (fun p => s!"{p.1.name}={showFsH p.2}/{showFsH p.1.cached}"))
+  ",".intercalate (((st.obs.filter (fun p => p.1.requiresScan)).mergeSort (fun a b => decide (a.1.name ≤ b.1.name))).map
+    (fun p =>
+      let raw := match st.obs.find? (fun q => q.1.name = p.1.name && !q.1.requiresScan) with
+        | some q => showFsH q.2
+        | none => "-"
+      s!"{p.1.name}={showFsH p.2}/{showFsH p.1.cached}/{raw}"))
 
 def dumpSt (st : St) : String := dump st.d.n ++ " O=" ++ showObs st
 
